@@ -7,6 +7,7 @@ import (
 	"fmt"
 	"os"
 	"runtime"
+	"strings"
 	"sync"
 	"sync/atomic"
 	"time"
@@ -34,6 +35,10 @@ type OverloadScenario struct {
 		Waits    []int `json:"waits_ms"`
 		Sessions int   `json:"sessions"`
 		Hammer   int   `json:"hammer"` // > 0: that many goroutines take from the bucket at the same instant, through the plugin's hook
+		From     *struct {
+			Cap      int `json:"cap"`
+			Interval int `json:"interval_ms"`
+		} `json:"from"` // the plugin starts with this rate limit and is updated to the scenario's before the first burst
 	} `json:"rate"`
 }
 
@@ -105,7 +110,179 @@ type ovSess struct {
 	conn     *Conn
 }
 
+// ovDiscPtr is ovDisc keyed by the session object (a re-dialled session changes its addresses).
+type ovDiscPtr struct {
+	mu   sync.Mutex
+	done map[interface{}]int
+}
+
+func (d *ovDiscPtr) Name() string { return "verif-after-overloader" }
+func (d *ovDiscPtr) PostDisconnect(s erpc.BaseSession) *erpc.Status {
+	d.mu.Lock()
+	d.done[interface{}(s)]++
+	d.mu.Unlock()
+	return nil
+}
+func (d *ovDiscPtr) count(s erpc.Session) int {
+	d.mu.Lock()
+	defer d.mu.Unlock()
+	return d.done[interface{}(s)]
+}
+
+// runOverloadDial: the plugin sits on the DIALLING peer (PostDial takes the slot), which re-dials lost connections.
+// The remote end is a plain peer behind a loopback listener.  "blip": the remote end drops the oldest admitted
+// session's connection and the session re-dials successfully -- it is the same admitted session before and after.
+func runOverloadDial(rec *Rec, sc *OverloadScenario, n int) {
+	rec.SetTrace(sc.ID, map[string]interface{}{"mode": "overload", "cap": 0, "once": 0, "path": sc.Path})
+	app := NewApp(rec, nil)
+	CurApp = app
+	bk := erpc.NewPeer(erpc.PeerConfig{})
+	bk.RouteCall(new(T))
+	lis, err := LoopListen()
+	if err != nil {
+		rec.Emit("SetupFailed", "why", err.Error())
+		return
+	}
+	go erpc.VerifServeListener(bk, NoLinger{lis})
+	addr := lis.Addr().String()
+	var ov *overloader.Overloader
+	var cli erpc.Peer
+	after := &ovDiscPtr{done: map[interface{}]int{}}
+	var liveS []erpc.Session
+	var rejectedOpen int32
+	defer func() {
+		done := make(chan struct{})
+		go func() {
+			if cli != nil {
+				cli.Close()
+			}
+			bk.Close()
+			close(done)
+		}()
+		select {
+		case <-done:
+		case <-time.After(time.Second):
+		}
+		lis.Close()
+		rec.Flush()
+	}()
+	dial := func() erpc.Session {
+		s, st := cli.Dial(addr)
+		if !st.OK() || s == nil {
+			rec.Emit("DialRefused", "v", statStr(st))
+			if st.Code() == erpc.CodeDialFailed && !strings.Contains(statStr(st), "connection overload") {
+				// the machine, not the plugin, refused (no local port, ...): nothing can be concluded from this run
+				rec.Emit("EnvFailure", "why", statStr(st))
+			}
+			return nil
+		}
+		return s
+	}
+	// the remote end sees exactly the live sessions once a rejected connection has been closed by the dialling side
+	settled := func() bool {
+		return WaitUntil(500*time.Millisecond, func() bool { return bk.CountSession() == len(liveS) })
+	}
+	for _, st := range sc.Steps {
+		switch st.Op {
+		case "limit":
+			ov = overloader.New(overloader.LimitConfig{MaxConn: int32(st.K)})
+			cli = erpc.NewPeer(erpc.PeerConfig{RedialTimes: 5, RedialInterval: 3 * time.Millisecond, DialTimeout: 2 * time.Second}, NoLingerDial{}, ov, after)
+			rec.Emit("Op", "op", "limit", "k", st.K, "admitted", 0)
+			continue
+		case "raise":
+			ov.Update(overloader.LimitConfig{MaxConn: int32(st.K)})
+			rec.Emit("Op", "op", "raise", "k", st.K, "admitted", 0)
+		case "connect":
+			adm := 0
+			if s := dial(); s != nil {
+				adm = 1
+				liveS = append(liveS, s)
+			} else if !settled() {
+				atomic.AddInt32(&rejectedOpen, 1)
+			}
+			rec.Emit("Op", "op", "connect", "k", 1, "admitted", adm)
+		case "burst":
+			var mu sync.Mutex
+			var wg sync.WaitGroup
+			before := len(liveS)
+			for i := 0; i < st.K; i++ {
+				wg.Add(1)
+				go func() {
+					defer wg.Done()
+					if s := dial(); s != nil {
+						mu.Lock()
+						liveS = append(liveS, s)
+						mu.Unlock()
+					}
+				}()
+			}
+			wg.Wait()
+			if !settled() {
+				atomic.AddInt32(&rejectedOpen, 1)
+			}
+			rec.Emit("Op", "op", "burst", "k", st.K, "admitted", len(liveS)-before)
+		case "close":
+			if len(liveS) == 0 {
+				rec.Emit("Stuck", "why", "nothing to end")
+				continue
+			}
+			s := liveS[0]
+			liveS = liveS[1:]
+			s.Close()
+			WaitUntil(time.Second, func() bool {
+				select {
+				case <-s.CloseNotify():
+					return !s.Health() && after.count(s) > 0
+				default:
+					return false
+				}
+			})
+			settled()
+			rec.Emit("Op", "op", "close", "k", 1, "admitted", 0)
+		case "blip":
+			if len(liveS) == 0 {
+				rec.Emit("Stuck", "why", "nothing to blip")
+				continue
+			}
+			s := liveS[0]
+			old := Name(s)
+			rs, ok := bk.GetSession(old)
+			if !ok {
+				rec.Emit("Stuck", "why", "remote end of the session not found")
+				continue
+			}
+			rs.Close()
+			// the session notices, re-dials, and is served again under its new address
+			back := WaitUntil(3*time.Second, func() bool {
+				if !s.Health() {
+					return false
+				}
+				// (the new connection may well get the local port of the old one: the remote end's session object tells them apart)
+				rs2, ok := bk.GetSession(Name(s))
+				return ok && rs2 != rs && rs2.Health()
+			})
+			if !back {
+				rec.Emit("Stuck", "why", "the session did not come back from its re-dial")
+			}
+			settled()
+			rec.Emit("Op", "op", "blip", "k", 1, "admitted", 0)
+		}
+		working := 0
+		for _, s := range liveS {
+			r := new(Res)
+			if s.Call(CallRoute, &Arg{Tag: "w"}, r).StatusOK() && r.Tag == F("w") {
+				working++
+			}
+		}
+		rec.Emit("Probe", "count", cli.CountSession(), "working", working, "rejectedopen", atomic.LoadInt32(&rejectedOpen))
+	}
+}
+
 func runOverload(rec *Rec, sc *OverloadScenario, n int) {
+	if sc.Path == "dial" {
+		runOverloadDial(rec, sc, n)
+		return
+	}
 	rec.SetTrace(sc.ID, map[string]interface{}{"mode": "overload", "cap": 0, "once": 0, "path": sc.Path})
 	var lis *MemListener
 	// serve admits connection b on the server by the scenario's accept path and reports the session (nil: rejected)
@@ -340,7 +517,15 @@ func runRate(rec *Rec, sc *OverloadScenario, n int) {
 	rec.SetTrace(sc.ID, map[string]interface{}{"mode": "rate", "cap": r.Cap, "once": once})
 	app := NewApp(rec, nil)
 	CurApp = app
-	ov := overloader.New(overloader.LimitConfig{MaxTotalQPS: int32(r.Cap), QPSInterval: interval})
+	var ov *overloader.Overloader
+	if r.From != nil {
+		// a limit update on a live plugin: from then on the new capacity and the new refill apply
+		ov = overloader.New(overloader.LimitConfig{MaxTotalQPS: int32(r.From.Cap), QPSInterval: time.Duration(r.From.Interval) * time.Millisecond})
+		time.Sleep(3 * time.Duration(r.From.Interval) * time.Millisecond)
+		ov.Update(overloader.LimitConfig{MaxTotalQPS: int32(r.Cap), QPSInterval: interval})
+	} else {
+		ov = overloader.New(overloader.LimitConfig{MaxTotalQPS: int32(r.Cap), QPSInterval: interval})
+	}
 	srv := erpc.NewPeer(erpc.PeerConfig{}, ov)
 	srv.RouteCall(new(T))
 	srv.RoutePush(new(U))
